@@ -134,6 +134,21 @@ claim("C05",
       "translate_cid, the computation of the inferred name, HashMap / HashSet / NameGenerator are shims by contract; the iteration of retain() and "
       "the search of the Select in the CTE pipeline are dropped by the slices.")
 
+prop("C10", ["resolve_guards"],
+     not_covered="what lookup_in finds for one path (names / layered modules / NS_INFER), insert_frame (which columns a frame declares after select / "
+                 "aggregate / group), resolve_ident_fallback inference, validate_expr_type (scalar where a relation is required), lowering's "
+                 "`cannot find cid` paths: HashMap-of-Decl recursion; a regression there is not detected by this check")
+claim("C10",
+      "PARTIAL (the decision points, not the whole resolver). Proved on the real code for all inputs: resolve_ident_core returns Err whenever the name has "
+      "two or more candidates - as written (RG1) or in the default namespace (RG3) - and with exactly one candidate returns that candidate (RG2); "
+      "Module::lookup returns the direct hits PLUS the hits through every redirect, for any number of redirects and whatever the direct lookup found "
+      "(LK1, loop invariant LK2) - so a second candidate in another relation in scope is never missed; apply_args_to_closure returns Err whenever a named "
+      "argument is not consumed by a named parameter of the callee (AA1-2); fold_function returns Err for more positional arguments than parameters, a "
+      "function value for fewer, and evaluates only a saturated call (FA1-3). NOT proved: that an out-of-frame column has zero candidates, relation / "
+      "scalar confusion.",
+      "HashSet<Ident> is a shim with a ghost set view; lookup_in, resolve_ident_wildcard, resolve_ident_fallback, ambiguous_error, expr_of_func are "
+      "external; the drain loop over named parameters is replaced by its contract (stated in the evidence).")
+
 prop("C09", ["ident_quote", "ids_names"],
      not_covered="content of the identifier regex and of the keyword tables; freshness of generated names against user names that are not registered yet; "
                  "assign_names / RelVarNameAssigner loops")
@@ -182,7 +197,7 @@ def _safety(name):
 
 
 _ALL_UNITS = ["take_range", "sort_take", "split_order", "window_frame", "dialect_select", "ident_quote", "ids_names", "toposort", "rq_tables",
-              "select_shape", "span_units", "sql_prec", "prql_prec"]
+              "select_shape", "span_units", "sql_prec", "prql_prec", "literals", "set_ops", "desugar", "resolve_guards"]
 prop("C12", _ALL_UNITS, select={u: _safety for u in _ALL_UNITS},
      not_covered="every function that is not under contract (~150 unwrap/expect sites, todo!() in type_intersection, panic!(cannot find cid) in lookup_cid), "
                  "recursion depth, chumsky, time bounds")
